@@ -11,6 +11,7 @@ from rv.gen import geoms
 
 ANCHORS = ("geometry/conversion.py", "geometry/operations.py", "geometry/features.py")
 THOROUGH_SHARDS = 10
+AMBIENT_TESTS = ["tests/test_geometry", "tests/test_evaluation", "tests/test_plot"]
 _installed = False
 
 POSITIONS = ["bottom-left", "bottom-right", "top-left", "top-right", "center-left", "center-right",
